@@ -191,6 +191,11 @@ def iter_is_finite(func, env, it, depth=0):
         if isinstance(c, External) and c.dotted.startswith(("numpy.", "scipy.", "pandas.", "math.", "os.", "pathlib.", "json.", "operator.")):
             return True, "library call %s returning a finished object" % c.dotted
         return False, "call %s" % ast.unparse(f)
+    if isinstance(it, ast.BinOp) and isinstance(it.op, ast.Add):
+        l, r = iter_is_finite(func, env, it.left, depth + 1), iter_is_finite(func, env, it.right, depth + 1)
+        return l[0] and r[0], "concatenation of finite sequences" if l[0] and r[0] else "concatenation with %s" % (l[1] if not l[0] else r[1])
+    if isinstance(it, ast.Name) and isinstance(getattr(func.module, "constants", {}).get(it.id), (ast.Tuple, ast.List, ast.Set, ast.Dict, ast.Constant)):
+        return True, "module-level literal"
     if isinstance(it, ast.GeneratorExp):
         return all(iter_is_finite(func, env, g.iter, depth + 1)[0] for g in it.generators), "generator over finite iterables"
     t = env.type_of(it).strip_opt()
@@ -218,6 +223,11 @@ def iter_is_finite(func, env, it, depth=0):
             return True, "parameter (a caller-supplied container)"
         if it.id == func.vararg or it.id == func.kwarg:
             return True, "*args / **kwargs (a tuple / dict built at the call)"
+        for n in ast.walk(func.node):
+            if n is not func.node and isinstance(n, (ast.FunctionDef, ast.Lambda)):
+                a = n.args
+                if it.id in [x.arg for x in a.posonlyargs + a.args + a.kwonlyargs] + [y.arg for y in (a.vararg, a.kwarg) if y is not None]:
+                    return True, "parameter of a nested function (a caller-supplied container)"
     if isinstance(it, ast.Attribute):
         return True, "attribute (a stored container)"
     if isinstance(it, ast.Subscript):
